@@ -53,8 +53,36 @@ def gen(rng, tier, no, wide=False):
         else:
             fl.append([k, rng.choice(G.MEMCPY_NAMES + ["Memset (Device)", "no such type"])])
     case["params"] = {"filters": fl, "with_rank_col": rng.random() < 0.5, "decoded": rng.choice([None, None, "long", "short"]),
-                      "composite": rng.random() < 0.7, "twice": rng.random() < 0.3}
+                      "composite": rng.random() < 0.7, "twice": rng.random() < 0.3, "used_before": rng.random() < 0.3}
     return case
+
+
+_WARM: Dict[str, Any] = {}
+
+
+def _warm_frame():
+    """A frame of another trace with its own symbol table (other names, other numbering), loaded once per process:
+    filter objects are applied to it first when the case says `used_before` (a filter is a value: having selected from
+    one frame must not change what it selects from the next)."""
+    if not _WARM:
+        ev = [{"ph": "X", "cat": "cpu_op", "name": f"zz_pad_{i}", "pid": 5, "tid": 5, "ts": 10 * i, "dur": 5} for i in range(7)]
+        names = ["ProfilerStep#3", "aten::add", "aten::mm", "cudaLaunchKernel", "cudaMemcpyAsync", "nccl:all_reduce", "Memset (Device)",
+                 "Memcpy DtoH (Device -> Pageable)", "ncclKernel_x", "Context Sync"]
+        t = 100
+        for i, n in enumerate(names):
+            ev.append({"ph": "X", "cat": "user_annotation" if n.startswith("Profiler") else "cpu_op", "name": n, "pid": 5, "tid": 5, "ts": t, "dur": 3})
+            t += 5
+        ev.append({"ph": "X", "cat": "cuda_runtime", "name": "cudaLaunchKernel", "pid": 5, "tid": 5, "ts": t, "dur": 2, "args": {"correlation": 9}})
+        ev.append({"ph": "X", "cat": "kernel", "name": "ampere_sgemm_128x64_nn", "pid": 0, "tid": 7, "ts": t + 3, "dur": 4, "args": {"correlation": 9, "stream": 7}})
+        ev.append({"ph": "X", "cat": "gpu_memcpy", "name": "Memcpy HtoD (Pageable -> Device)", "pid": 0, "tid": 7, "ts": t + 9, "dur": 4, "args": {"correlation": 11, "stream": 7}})
+        ta, files = C.load_case({"ranks": {0: ev}})
+        try:
+            df = ta.t.get_trace(0).copy()
+            df["rank"] = 0
+            _WARM["df"], _WARM["table"] = df, ta.t.symbol_table
+        finally:
+            htaio.remove_case_dir(files)
+    return _WARM["df"], _WARM["table"]
 
 
 def _mk_filter(spec, table):
@@ -108,6 +136,13 @@ def observe(case):
             # tables differ per filter (None vs table): CompositeFilter passes one table to all members,
             # so a composite is only built when all members agree; otherwise members are applied in sequence
             built = [_mk_filter(s, table) for s in specs]
+            if p.get("used_before"):
+                wdf, wtable = _warm_frame()
+                for f, t in built:
+                    try:
+                        f(wdf.copy(), wtable if t is not None else None)
+                    except Exception:  # noqa: BLE001
+                        pass
             tabs = {id(t) for _, t in built}
             if p["composite"] and len(tabs) == 1:
                 out = F.CompositeFilter([f for f, _ in built])(df, built[0][1])
